@@ -17,6 +17,7 @@ import (
 	"bytes"
 	"crypto/rand"
 	"crypto/rsa"
+	"crypto/sha256"
 	"encoding/json"
 	"fmt"
 	"net/http/httptest"
@@ -609,9 +610,34 @@ func TestVerif_C16(t *testing.T) {
 	f := c16Setup(t)
 	defer f.close()
 	reg, unreg := c16Routes(f.sec.E)
-	kit.S().SetExtra("registered_routes", len(reg))
+	if shard == 0 {
+		kit.S().SetExtra("registered_routes", len(reg))
+		kit.S().SetExtra("unregistered_method_path_pairs", len(unreg))
+	}
 	if len(reg) < 50 || len(reg) != len(f.sec.E.Routes()) {
 		t.Fatalf("VERIF-INFRA route table: %d instantiated of %d registered (unknown path parameter?)", len(reg), len(f.sec.E.Routes()))
+	}
+
+	// ---- part 0: the documented decisions (access_matrix_integration_test.go, "valid nodeSec" rows:
+	// bob has write on /datasets and /datasets/places) must come out of the reference and the hub alike
+	if shard == 0 {
+		acl := []c16AC{{"/datasets", "write", false}, {"/datasets/places", "write", false}}
+		for _, row := range []struct {
+			path string
+			want string
+		}{{"/datasets", "allow"}, {"/jobs", "deny"}, {"/datasets/places/changes", "deny"}} {
+			if v := c16Decide("GET", row.path, acl); v.Decision != row.want {
+				t.Fatalf("VERIF-INFRA reference decision disagrees with the documented access matrix: GET %s -> %s, documented %s", row.path, v.Decision, row.want)
+			}
+			f.aclRequest(t, f.list, f.lcli, c16Route{Method: "GET", Path: row.path, Reg: true}, acl, true, "documented-matrix")
+		}
+		resp := f.list.do("GET", "/datasets", "", "", f.lcli)
+		if resp.Code != 200 || strings.TrimSpace(resp.Body) != `[{"Name":"places"}]` {
+			c16Fail(t, c16Case{Method: "GET", Path: "/datasets", Token: "valid-client", ACL: acl, Got: resp.Code}, "documented access matrix: GET /datasets must answer 200 [{\"Name\":\"places\"}], got %d %s", resp.Code, resp.Body)
+		}
+		if resp := f.list.do("GET", "/datasets", "", "", ""); resp.Code != 401 || !strings.Contains(resp.Body, "missing or malformed jwt") {
+			c16Fail(t, c16Case{Method: "GET", Path: "/datasets", Token: "absent", Got: resp.Code}, "documented access matrix: no token must answer 401 missing or malformed jwt, got %d %s", resp.Code, resp.Body)
+		}
 	}
 
 	// ---- part 1: tokens (rules 1, 2) - every route x every token kind -----------------
@@ -678,10 +704,14 @@ func TestVerif_C16(t *testing.T) {
 			continue
 		}
 		if c16NoACLRoutes[r.key()] {
-			kit.S().AddExtra("routes_without_authorizer_not_asserted", 1)
+			if shard == 0 {
+				kit.S().AddExtra("routes_without_authorizer_not_asserted", 1)
+			}
 			continue
 		}
-		lat := c16Lattice(r.Path, thorough)
+		// all ordered lists of length <= 2 over the extended lattice (the design's five
+		// resources plus three near misses); thorough: also every list of length 3 over the five
+		lat := c16Lattice(r.Path, true)
 		lists := [][]c16AC{{}}
 		for _, a := range lat {
 			lists = append(lists, []c16AC{a})
@@ -689,6 +719,16 @@ func TestVerif_C16(t *testing.T) {
 		for _, a := range lat {
 			for _, b := range lat {
 				lists = append(lists, []c16AC{a, b})
+			}
+		}
+		if thorough {
+			base := c16Lattice(r.Path, false)
+			for _, a := range base {
+				for _, b := range base {
+					for _, c := range base {
+						lists = append(lists, []c16AC{a, b, c})
+					}
+				}
 			}
 		}
 		for _, acl := range lists {
@@ -827,7 +867,11 @@ func c16SecState(core *security.ServiceCore) string {
 		Clients map[string]*security.ClientInfo
 		ACLs    map[string][]*security.AccessControl
 	}
-	s := st{Clients: core.GetClients(), ACLs: map[string][]*security.AccessControl{}}
+	s := st{Clients: map[string]*security.ClientInfo{}, ACLs: map[string][]*security.AccessControl{}}
+	for k, c := range core.GetClients() {
+		sum := sha256.Sum256(c.PublicKey)
+		s.Clients[k] = &security.ClientInfo{ClientID: c.ClientID, PublicKey: sum[:6], Deleted: c.Deleted}
+	}
 	for k, v := range core.GetAllAccessControls() {
 		if len(v) > 0 { // an empty list grants nothing, like no list
 			s.ACLs[k] = v
